@@ -21,6 +21,7 @@ mod series_engine;
 mod wsgen;
 mod push_engine;
 mod diff_engine;
+mod analysis_engine;
 
 use std::io::Write;
 
@@ -78,6 +79,8 @@ fn main() {
         "series-replay" => series_engine::replay(&mut out, &opts),
         "fuzzpair" => apply_engine::run_pairs(&mut out, seed, n, &opts),
         "fuzzpair-replay" => apply_engine::replay_pairs(&mut out, &opts),
+        "analysis" => analysis_engine::run(&mut out, seed, n, &opts),
+        "analysis-replay" => analysis_engine::replay(&mut out, &opts),
         other => { eprintln!("unknown engine {}", other); std::process::exit(2); }
     }
     out.flush().unwrap();
